@@ -2,10 +2,19 @@
 C01 — use-def and ownership links stay consistent under every edit history.
 Model: `IrVerif/Model/Kernel.lean`; invariant `WF` (six clauses, `IrVerif/Lemmas/KernelBase.lean`,
 `KernelOps.lean`) and the per-primitive / per-operation lemmas: `IrVerif/Lemmas/Kernel*.lean`.
+
+Round 3 (deepening): the alphabet `Op` / `ConvOp` over which `C01_step`, `C01_step_conv`, `C01_history`,
+`C01_mutation_faithful` (and `C06_atomic`) quantify now also contains `Node.name =`, `Node.op_type =`,
+`Value.const_value = None`, `list.sort(key=, reverse=)` of the tracked lists, every edit of a node's attribute
+dict (`attrSet` / `attrDel` / `attrClear`, attributes being model state: `C01_attr_frame`), `Graph.sort` decided
+by the model itself through C12's sort model (`Op.sort`, `C01_sort_step`, `Lemmas/KernelSort.lean`), and the
+composites `Tape.initializer` and `Builder.<Op>(…)`.  Which public members of /repo map to which operation is
+the table `API_TABLE` in `harness/kernel_ops.py`, compared with the introspected classes on every run.
 -/
 import IrVerif.Lemmas.KernelOps
 import IrVerif.Lemmas.KernelSeq
 import IrVerif.Lemmas.KernelFaithful
+import IrVerif.Lemmas.KernelSort
 namespace IrVerif.Kernel
 
 /-- the empty world is well formed -/
@@ -46,6 +55,78 @@ theorem C01_history (ops : List AnyOp) : WF (runAny ops) := by
 theorem C01_history_from (w : World) (ops : List AnyOp) (h : WF w) :
     WF (ops.foldl (fun w o => (stepAny w o).1) w) :=
   foldl_inv WF _ (fun a b ha => C01_step_any a b ha) ops _ h
+
+/-! ### attribute edits and `Graph.sort` (deepening round 3)
+
+Node attributes are part of the model state (`NodeS.attrs`: every key in dict order with the graphs its
+attribute holds).  No `Graph` / `Attr` object carries a back pointer to the node that holds it
+(`_core.py` `Graph.__slots__`, `Attr.__slots__`; `Attributes._owner` points from the dict to its node, which is
+the direction the model has), so no ownership link depends on attributes — proved, not assumed:
+`C01_attr_frame`.  What does depend on them is the traversal `Graph.sort` performs; `Op.sort g` reads the
+object tree off the world (`treeOf`) and lets C12's `sortModel` decide. -/
+
+/-- **C01_attr_frame**: every edit of a node's attribute dict (`attributes[k] = a`, `add`, `update`, `setdefault`,
+`del`, `pop`, `clear`, and the dict a new node is created with) changes at most the attribute dicts: all value
+records, all graph records, every other field of every node, the tensor names and the name authority are what
+they were — and such a change keeps the invariant in both directions. -/
+theorem C01_attr_frame (w : World) (n : Nat) (key : String) (gs : List Nat) (strict : Bool)
+    (as : List (String × List Nat)) :
+    AttrFrame w (step w (.attrSet n key gs)).1 ∧ AttrFrame w (step w (.attrDel n key strict)).1 ∧
+    AttrFrame w (step w (.attrClear n)).1 ∧ AttrFrame w (setAttrs w n as) ∧
+    (∀ w', AttrFrame w w' → (WF w' ↔ WF w)) :=
+  ⟨guardOp_attrFrame _ _ _ _ (setAttrs_attrFrame _ _ _), guardOp_attrFrame _ _ _ _ (setAttrs_attrFrame _ _ _),
+   guardOp_attrFrame _ _ _ _ (setAttrs_attrFrame _ _ _), setAttrs_attrFrame _ _ _, fun _ h => h.wf_iff⟩
+
+/-- **C01_sort_step**: `C01_step` for the real sort.  `Op.sort g` builds the object tree
+`RecursiveGraphIterator` walks from the world itself (`treeOf`: node sequences, producers of node inputs,
+graph-valued attributes in dict order) and runs C12's `Sort.sortModel` on it.  The tree is tied to the world
+(every graph of the nest is listed with exactly the node sequence the world records), so by `C12_perm` — under
+C12's well-formedness of the tree: distinct node ids and graph ids, i.e. no `Graph` object reachable through two
+attributes — every order the sort model returns is a permutation of that graph's current sequence: the
+permutation guard of `sortOk` ("some permutation", a model totalisation) is never what rejects, the call is
+rejected exactly by a cycle / shared graph (`sortModel = none`) or by the naming probe, and the invariant is
+preserved. -/
+theorem C01_sort_step (w : World) (g : Nat) (hw : WF w) (ht : Sort.WF (treeOf w g)) :
+    WF (step w (.sort g)).1 ∧
+    (∀ h ∈ Sort.allGraphs (treeOf w g), h.2.map Sort.MNode.id = (w.gr h.1).nodes) ∧
+    (∀ r, Sort.sortModel (treeOf w g) = some r →
+      (∀ p ∈ r, p.2.Perm (w.gr p.1).nodes) ∧
+      sortBad w r = r.any (fun p => !p.2.all (nodeAcceptable w p.1)) ∧
+      (step w (.sort g)).1 = (step w (.sortOk r)).1) ∧
+    (Sort.sortModel (treeOf w g) = none → step w (.sort g) = (w, .raised "ValueError")) := by
+  refine ⟨step_WF w _ hw, treeOf_tied w g, ?_, ?_⟩
+  · intro r hr
+    refine ⟨sortModel_perm_world w g ht r hr, sortBad_of_sortModel w g ht r hr, ?_⟩
+    simp only [step, graphSort, hr, guardOp]
+    split <;> rfl
+  · intro hn
+    simp only [step, graphSort, hn]
+
+/-! non-vacuity of `C01_sort_step` / `C01_attr_frame`: a child graph `g0 = [b, a]` (out of order) held by an
+attribute of `o ∈ g1`; `sort` on `g1` re-orders the child.  With the same graph held by two attributes the
+hypothesis fails (and the library raises). -/
+
+def exSortHistory : List Op :=
+  [ .newValue (some "x"),                                                    -- v0
+    .newNode "Id" (some "a") [some 0] none none none,                     -- n0 -> v1
+    .newNode "Id" (some "b") [some 1] none none none,                     -- n1 -> v2
+    .newGraph [] [] [1, 0] [],                                               -- g0 = [b, a]
+    .newNodeAttrs "If" (some "o") [] none none none [("then", [0])],              -- n2 -> v3
+    .newGraph [] [] [2] [] ]                                                 -- g1 = [o]
+
+example : treeOf (run exSortHistory) 1 =
+    (1, [.mk 2 [] [(0, [.mk 1 [some 0] [], .mk 0 [none] []])]]) := by rfl
+example : Sort.WF (treeOf (run exSortHistory) 1) := ⟨by decide, by decide⟩
+example : Sort.sortModel (treeOf (run exSortHistory) 1) = some [(1, [2]), (0, [0, 1])] := by decide
+example : ((step (run exSortHistory) (.sort 1)).1.gr 0).nodes = [0, 1] ∧
+    (step (run exSortHistory) (.sort 1)).2 = .ok := by decide
+/-- the hypothesis can fail: the child held by two attributes of the same node -/
+example : ¬ Sort.WF (treeOf (step (run exSortHistory) (.attrSet 2 "else" [0])).1 1) := fun h => by
+  have := h.ids; revert this; decide
+example : (step (step (run exSortHistory) (.attrSet 2 "else" [0])).1 (.sort 1)).2 = .raised "ValueError" := by decide
+/-- attribute edits do change the model state (they are not no-ops), only not what `WF` reads -/
+example : (step (run exSortHistory) (.attrDel 2 "then" true)).1 ≠ run exSortHistory ∧
+    (step (run exSortHistory) (.attrDel 2 "zz" true)).2 = .raised "KeyError" := by decide
 
 /-! ### what `WF` says, spelled out on the accessors (so that the statement can be read off) -/
 
